@@ -10,15 +10,19 @@ From Oras Require Import Base.Prelude Base.Regex Generated.GC20 Generated.GC13 M
 (* ------------------------------------------------------------------ *)
 (* Refinement: the client run against the registry model behaves as the content store
    with tags [spec_run] (Model/RemoteSpec.v): for EVERY history of Push / Fetch / Exists /
-   Delete / Resolve / FetchReference / Tag / PushReference / Mount / blob Resolve /
-   blob FetchReference, EVERY capability profile [p] (digest headers, range support,
+   Delete / Resolve / FetchReference / Tag / PushReference / Mount / Predecessors /
+   blob Resolve / blob FetchReference, EVERY capability profile [p] (digest headers, range support,
    Content-Length on GET, mounting, Referrers API), every ManifestMediaTypes option,
    every initial referrers state and any hash function producing well-formed digests:
    the results are those of the store and the registry's final content is the store's.
 
-   [_partial]: hypotheses [wf_hist] (Model/RemoteSpec.v) -- descriptors are accurate for
-   what the store holds, manifests are decodable and subject-less (subjects: C14;
-   Predecessors below), and the excluded mechanism of the known finding
+   Predecessors returns the stored manifests whose subject is the given descriptor.
+
+   [_partial]: hypotheses [wf_hist], [rst_ok] (Model/RemoteSpec.v) -- descriptors are
+   accurate for what the store holds, manifests are decodable and a subject is pushed only
+   to a registry with the Referrers API (client-side referrers tag schema: C14), the
+   referrers state is "unsupported" only against a registry without the API, and the
+   excluded mechanism of the known finding
    head-tag-no-digest-header: a tag is resolved by HEAD only against a registry that
    sends Docker-Content-Digest.  [C13_refines_store_refuted] is the witness that the
    statement is false without that last hypothesis. *)
@@ -30,10 +34,11 @@ Theorem C13_refines_store_partial :
     (forall c, valid_digest (H c) = true) ->
     forall other_blobs rst os g out,
       (forall d c, lookup d other_blobs = Some c -> d = H c) ->
+      rst_ok p rst ->
       wf_hist H parse_mt subject_of main user_mts p (mkStore [] [] [] other_blobs) os ->
       run_history H parse_mt subject_of main other user_mts p None other_blobs rst os = (g, out) ->
-      map snd out = snd (spec_run H main user_mts (mkStore [] [] [] other_blobs) os) /\
-      store_of g = fst (spec_run H main user_mts (mkStore [] [] [] other_blobs) os).
+      map snd out = snd (spec_run H subject_of main user_mts (mkStore [] [] [] other_blobs) os) /\
+      store_of g = fst (spec_run H subject_of main user_mts (mkStore [] [] [] other_blobs) os).
 Proof. exact run_history_refines. Qed.
 Print Assumptions C13_refines_store_partial.
 
@@ -43,7 +48,7 @@ Theorem C13_refines_store_refuted :
   map snd (snd (run_history w_H (fun s => Some s) (fun _ => Some None) (b "app") (b "src") []
                             w_profile None [] RSUnknown w_ops))
   = [ROk; RErr EOther] /\
-  snd (spec_run w_H (b "app") [] (mkStore [] [] [] []) w_ops) = [ROk; RDesc w_desc].
+  snd (spec_run w_H (fun _ => Some None) (b "app") [] (mkStore [] [] [] []) w_ops) = [ROk; RDesc w_desc].
 Proof. exact resolve_tag_without_digest_header_refuted. Qed.
 Print Assumptions C13_refines_store_refuted.
 
@@ -62,28 +67,36 @@ Theorem C13_predecessors_reflect :
 Proof. exact predecessors_reflect. Qed.
 Print Assumptions C13_predecessors_reflect.
 
-(* non-vacuity of the refinement hypotheses: a history with a manifest pushed under a
-   tag, resolved, fetched, re-tagged, a blob mounted and everything deleted again *)
-Definition ex_profile := mkProfile true false false true false.
+(* non-vacuity of the refinement hypotheses: a manifest pushed under a tag, resolved,
+   fetched, re-tagged; a second manifest whose subject is the first one, found by
+   Predecessors; a blob mounted from the sibling repository; deletions *)
+Definition ex_profile := mkProfile true false false true true.
 Definition ex_blob := b "layer".
 Definition ex_bdesc := mkDesc ct_octet zero_digest 5.
+Definition ex_ref := b "{subject:w}".
+Definition ex_rdesc := mkDesc mt_oci_manifest zero_digest 11.
+Definition ex_subject (c : str) : option (option desc) :=
+  if str_eqb c ex_ref then Some (Some w_desc) else Some None.
 Definition ex_ops : list op :=
   [OPushRef w_desc w_content (b "v1"); OResolve (b "v1"); OFetchRef (b "v1"); OFetch w_desc;
    OTag w_desc (b "v2"); OExists w_desc; OMount ex_bdesc None; OFetch ex_bdesc;
-   ODelete w_desc; OResolve (b "v2")].
+   OPreds w_desc; ODelete w_desc; OResolve (b "v2");
+   OPushRef ex_rdesc ex_ref (b "r1"); OPreds w_desc].
 Example C13_refines_store_nonvacuous :
-  wf_hist w_H (fun s => Some s) (fun _ => Some None) (b "app") [] ex_profile
+  wf_hist w_H (fun s => Some s) ex_subject (b "app") [] ex_profile
           (mkStore [] [] [] [(zero_digest, ex_blob)]) ex_ops /\
-  snd (spec_run w_H (b "app") [] (mkStore [] [] [] [(zero_digest, ex_blob)]) ex_ops)
+  rst_ok ex_profile RSUnknown /\
+  snd (spec_run w_H ex_subject (b "app") [] (mkStore [] [] [] [(zero_digest, ex_blob)]) ex_ops)
   = [ROk; RDesc w_desc; RDescBytes w_desc w_content; RBytes w_content; ROk; RBool true; ROk;
-     RBytes ex_blob; ROk; RErr ENotFound].
+     RBytes ex_blob; RDescs []; ROk; RErr ENotFound; ROk; RDescs [ex_rdesc]].
 Proof.
-  split; [|vm_compute; reflexivity].
+  split; [|split; [left; discriminate|vm_compute; reflexivity]].
   vm_compute. repeat split; auto; intros;
     repeat match goal with
            | X : Some _ = Some _ |- _ => injection X; clear X; intros; subst
            | X : None = Some _ |- _ => discriminate X
            end; auto.
+  all: try (right; split; [reflexivity|]; eexists; split; [reflexivity|discriminate]).
 Qed.
 
 (* ------------------------------------------------------------------ *)
